@@ -234,4 +234,1252 @@ class C02(WMode):
         return c["deliver"] + c["crash_restart"] + c["dup"] > 0
 
 
-MODES = {"C01": C01(), "C02": C02()}
+
+
+# ==================================================================================
+# C03 / C04 — heavy hitters: never over-count; always report a cell-dominating key
+# ==================================================================================
+QUERY_KS = (1, 2, 3, 10 ** 6)
+
+
+def hh_query(sk, k, t):
+    from .world import api
+
+    return api("query", sk.query, k, t)
+
+
+class HHChecker(Checker):
+    """Shared run shape; `which` selects the invariant that is attributed."""
+
+    def __init__(self, which):
+        self.prop = which
+
+    def t_eff(self, sk):
+        return int(float(sk.phi) * int(sk.n_added()))
+
+    def after(self, w, ev, ctx, info):
+        i = changed_node(ev, info)
+        if i is None:
+            return
+        n = w.nodes[i]
+        if n.primary is None or n.unknown:
+            return
+        sk = n.primary
+        truth = n.truth
+        if self.prop == "C03":
+            self.c03(w, i, n, sk, truth, ev)
+        else:
+            self.c04(w, i, n, sk, truth, ev)
+
+    # -- C03 ----------------------------------------------------------------------
+    def c03(self, w, i, n, sk, truth, ev):
+        for ident in w.universe:
+            c = int(sk[ident])
+            t = truth.get(ident, 0)
+            if c > t:
+                inv = "never_added_key_has_count" if t == 0 else "overcount_getitem"
+                self.fail(inv, f"node={i} hh[{ident.hex()}]={c} true={t} after {ev['op']}")
+        e = w.n_events
+        some = [t for t in truth.values() if 0 < t <= U32MAX]
+        combos = [(QUERY_KS[e % 4], (None, 0, 1, None)[(e // 4) % 4]), (10 ** 6, 0)]
+        if some and e % 3 == 0:
+            combos.append((QUERY_KS[(e + 1) % 4], some[e % len(some)]))
+        for k, t in combos:
+            for key, count in hh_query(sk, k, t):
+                tv = truth.get(key, 0)
+                if int(count) > tv:
+                    inv = "never_added_key_reported" if tv == 0 else "overcount_query"
+                    self.fail(inv, f"node={i} query({k},{t}) returned ({key.hex()},{int(count)}) true={tv}")
+                if len(key) > w.mkl:
+                    self.fail("reported_key_longer_than_max_key_len", f"{key.hex()}")
+
+    # -- C04 ----------------------------------------------------------------------
+    def c04(self, w, i, n, sk, truth, ev):
+        N = n.mass
+        if N >= U32MAX:
+            w.probes["c04_skipped_saturation_possible"] += 1
+            return
+        teff = self.t_eff(sk)
+        e = w.n_events
+        for ident, f in truth.items():
+            if f <= 0:
+                continue
+            B = None
+            for row in w.sharers(ident):
+                W = 0
+                for o in row:
+                    W += truth.get(o, 0)
+                b = 2 * f - W
+                if B is None or b > B:
+                    B = b
+            if B is None or B <= 0:
+                continue
+            w.probes["dominating_key_checked"] += 1
+            if B < f:
+                w.probes["dominating_key_with_collisions"] += 1
+            c = int(sk[ident])
+            if c < B:
+                self.fail("dominant_key_undercounted", f"node={i} hh[{ident.hex()}]={c} < bound={B} (f={f}, N={N}) after {ev['op']}")
+            ts = [(0, 1, B)[e % 3]]
+            if B >= teff:
+                ts.append(None)
+            for t in ts:
+                res = hh_query(sk, 10 ** 6, t)
+                hit = [int(cn) for k_, cn in res if k_ == ident]
+                if not hit or hit[0] < B:
+                    self.fail("dominant_key_not_reported", f"node={i} query(inf,{t}) lacks {ident.hex()} with count>={B}: got {hit} (f={f}, N={N})")
+            if 2 * f > N:
+                w.probes["majority_key_checked"] += 1
+                res = hh_query(sk, 1, 0)
+                if not res or res[0][0] != ident or int(res[0][1]) < 2 * f - N:
+                    self.fail("majority_key_not_first", f"node={i} query(1,0)={[(k_.hex(), int(c_)) for k_, c_ in res]} expected {ident.hex()} with count>={2*f-N} (f={f}, N={N})")
+
+
+class HHMode(WMode):
+    def __init__(self, prop):
+        self.prop = prop
+
+    def draw(self, rng):
+        cfg = draw_config(rng, "hh", wmax=16, nodes_max=4, events=(12, 50))
+        cfg["weights"] = hist_weights()
+        if self.prop == "C03":
+            cfg["mult"] = rng.choice([
+                {"one": 3, "small": 4, "mid": 2, "zero": 1},
+                {"one": 2, "small": 2, "mid": 1, "zero": 1, "ceil": 1, "half": 1, "huge": 1},
+            ])
+        else:
+            cfg["mult"] = {"one": 3, "small": 4, "mid": 2, "zero": 1}
+        # width-1/depth-1 corner: all orders of a small weighted multiset are sampled densely
+        if rng.random() < 0.15:
+            cfg["width"], cfg["depth"], cfg["n_nodes"] = 1, 1, rng.randrange(1, 3)
+        return cfg
+
+    def checker(self, cfg):
+        return HHChecker(self.prop)
+
+    def nontrivial(self, w):
+        c = w.counters
+        return c["deliver"] + c["crash_restart"] > 0 or w.probes["dominating_key_with_collisions"] > 0
+
+
+# ==================================================================================
+# C13 — query(k, threshold) is the exact, fresh top-k
+# ==================================================================================
+class C13Checker(Checker):
+    prop = "C13"
+
+    def after(self, w, ev, ctx, info):
+        if ev["op"] != "query" or info is None:
+            return
+        n = w.nodes[info["node"]]
+        sk = info["sk"]
+        k, t = ev["k"], ev.get("t")
+        res = [(bytes(a), int(b)) for a, b in info["res"]]
+        self.check_answer(w, n, sk, k, t, res)
+
+    def table_answer(self, sk, teff):
+        """Unbounded answer derived from the public tables."""
+        keys = []
+        seen = set()
+        cnt = sk.lhh_count
+        for r in range(cnt.shape[0]):
+            for c in range(cnt.shape[1]):
+                if int(cnt[r, c]) > 0:
+                    key = bytes(sk.lhh[r, c, : int(sk.key_lens[r, c])])
+                    if key not in seen:
+                        seen.add(key)
+                        keys.append(key)
+        out = []
+        for key in keys:
+            h = int(sk[key])
+            if h >= teff and h >= 1:
+                out.append((key, h))
+        return out
+
+    def check_answer(self, w, n, sk, k, t, res):
+        teff = int(float(sk.phi) * int(sk.n_added())) if t is None else int(t)
+        if len(res) > k:
+            self.fail("more_than_k", f"query({k},{t}) returned {len(res)} pairs")
+        keys = [a for a, _ in res]
+        if len(set(keys)) != len(keys):
+            self.fail("duplicate_keys", f"query({k},{t}) -> {res}")
+        counts = [b for _, b in res]
+        if any(counts[j] < counts[j + 1] for j in range(len(counts) - 1)):
+            self.fail("not_sorted", f"query({k},{t}) counts {counts}")
+        for key, cnt in res:
+            h = int(sk[key])
+            if cnt != h:
+                self.fail("count_ne_getitem", f"query({k},{t}) reports ({key.hex()},{cnt}) but hh[key]={h}")
+            if cnt < teff:
+                self.fail("below_threshold", f"query({k},{t}) reports ({key.hex()},{cnt}) < threshold {teff}")
+        want = self.table_answer(sk, teff)
+        want_counts = sorted((h for _, h in want), reverse=True)
+        got_pos = [c for c in counts if c >= 1]
+        if got_pos != want_counts[: len(got_pos)] or (len(got_pos) < min(k, len(want_counts)) and len(res) < k):
+            self.fail("not_the_top_k_of_the_tables", f"query({k},{t}) counts {counts}; tables give {want_counts[:k+2]} (threshold {teff})")
+        if len(res) < min(k, len(want_counts)):
+            self.fail("not_the_top_k_of_the_tables", f"query({k},{t}) returned {len(res)} pairs; tables hold {len(want_counts)} candidates >= {teff}")
+        if k >= 10 ** 6 and not n.unknown:
+            have = set(keys)
+            for ident in w.universe:
+                if n.truth.get(ident, 0) > 0:
+                    h = int(sk[ident])
+                    if h >= max(teff, 1) and ident not in have:
+                        self.fail("added_key_missing", f"query(inf,{t}) lacks {ident.hex()} with hh[key]={h} >= {max(teff,1)}")
+        # freshness oracle: a freshly loaded copy asked the same question
+        path = w._save_to(sk, 0)
+        from .world import api
+
+        fresh = api("load", loaders("hh")["class"], path, False)
+        fres = [(bytes(a), int(b)) for a, b in api("query", fresh.query, k, t)]
+        os.unlink(path)
+        fcounts = [b for _, b in fres]
+        if fcounts != counts:
+            w.probes["stale_answer_detected"] += 1
+            self.fail("stale_vs_fresh_copy", f"query({k},{t}) counts {counts}; freshly loaded copy answers {fcounts}")
+        if counts:
+            last = counts[-1]
+            if {a for a, b in res if b > last} != {a for a, b in fres if b > last}:
+                self.fail("stale_vs_fresh_copy", f"query({k},{t}) keys differ from the freshly loaded copy: {res} vs {fres}")
+        w.probes["queries_checked"] += 1
+
+
+class C13(WMode):
+    prop = "C13"
+
+    def draw(self, rng):
+        cfg = draw_config(rng, "hh", wmax=8, nodes_max=3, events=(15, 60))
+        cfg["shared"] = rng.random() < 0.3
+        w = hist_weights(work=40, views=cfg["shared"])
+        w["query"] = 40
+        cfg["weights"] = w
+        cfg["mult"] = {"one": 3, "small": 4, "mid": 1, "zero": 1}
+        return cfg
+
+    def checker(self, cfg):
+        return C13Checker()
+
+    def gen(self, rng, w, gs):
+        kind = wchoice(rng, w.cfg["weights"])
+        if kind != "query":
+            from .gen import gen_event
+
+            wts = dict(w.cfg["weights"])
+            wts["query"] = 0
+            return gen_event(rng, w, gs, wts, w.cfg["mult"])
+        i = rng.randrange(len(w.nodes))
+        n = w.nodes[i]
+        via = rng.randrange(0, len(n.views) + 1) if n.views else 0
+        prev = getattr(gs, "last_query", None)
+        r = rng.random()
+        if prev is not None and r < 0.3:
+            # immediate repeat: same node/route/threshold (cache hit path) possibly other k
+            ev = dict(prev)
+            if rng.random() < 0.5:
+                ev["k"] = rng.choice(QUERY_KS)
+            w.probes["repeat_query_same_threshold"] += 1
+        elif prev is not None and r < 0.5:
+            ev = dict(prev)
+            ev["t"] = rng.choice([None, 0, 1, 2, 3, 5, U32MAX])
+            w.probes["repeat_query_changed_threshold"] += 1
+        else:
+            total = int(n.primary.n_added()) if n.primary is not None else 0
+            t = rng.choice([None, None, 0, 1, 2, rng.randrange(0, max(2, min(total, U32MAX) + 1)), U32MAX])
+            ev = {"op": "query", "node": i, "via": via, "k": rng.choice(QUERY_KS), "t": t}
+        gs.last_query = ev
+        gs.last = "query"
+        return ev
+
+    def nontrivial(self, w):
+        return w.probes["queries_checked"] > 0 and (w.counters["deliver"] + w.counters["crash_restart"] > 0 or w.probes["repeat_query_same_threshold"] > 0)
+
+
+# ==================================================================================
+# C05 — an add raises the key's estimate by its multiplicity and nothing past it
+# ==================================================================================
+class C05Checker(Checker):
+    prop = "C05"
+
+    def before(self, w, ev):
+        if ev["op"] != "add":
+            return None
+        i = ev.get("node")
+        if i is None or not (0 <= i < len(w.nodes)) or w.nodes[i].primary is None:
+            return None
+        sk = w.party(w.nodes[i], ev.get("via", 0))
+        key = unhex(ev["key"])
+        w.note_key(key)
+        est = {u: sk.query(u) for u in w.universe}
+        ctx = {"est": est, "tab": sk.cms.copy(), "nadd": int(sk.n_added()), "key": key, "v": ev.get("v", 1)}
+        if w.fam in LOG:
+            cells = w.owner_cells(key)
+            if cells is not False:
+                ctx["c"] = min(int(sk.cms[r, c]) for r, c in enumerate(cells))
+                ctx["cells"] = cells
+        return ctx
+
+    def after(self, w, ev, ctx, info):
+        if ctx is None or info is None:
+            return
+        sk = info["sk"]
+        key, v = ctx["key"], ctx["v"]
+        old = ctx["est"]
+        new = {u: sk.query(u) for u in w.universe}
+        ek0, ek1 = old[key], new[key]
+        dn = int(sk.n_added()) - ctx["nadd"]
+        if w.fam == "linear":
+            want = min(int(ek0) + v, U32MAX)
+            if int(ek1) != want:
+                self.fail("linear_estimate_not_old_plus_v", f"add({key.hex()},{v}): est {ek0} -> {ek1}, expected {want}")
+            if int(ek0) + v <= U32MAX:
+                if dn != v:
+                    self.fail("n_added_not_grown_by_v", f"add({key.hex()},{v}): n_added grew by {dn}")
+            else:
+                w.probes["add_cut_short_by_ceiling"] += 1
+                if not (0 <= dn <= v):
+                    self.fail("n_added_out_of_range", f"add({key.hex()},{v}) cut short: n_added grew by {dn}")
+        else:
+            if dn != v:
+                self.fail("n_added_not_grown_by_v", f"add({key.hex()},{v}): n_added grew by {dn}")
+            if "c" in ctx:
+                c0 = ctx["c"]
+                c1 = min(int(sk.cms[r, c]) for r, c in enumerate(ctx["cells"]))
+                nr = int(sk.num_reserved)
+                s = c1 - c0
+                if not (0 <= s <= v):
+                    self.fail("log_counter_step_out_of_range", f"add({key.hex()},{v}): smallest counter {c0} -> {c1}")
+                if c0 + v <= nr + 1:
+                    if s != v or float(ek1) != float(ek0) + v:
+                        self.fail("log_not_exact_in_reserved_range", f"add({key.hex()},{v}): counter {c0} -> {c1}, est {ek0} -> {ek1} (num_reserved={nr})")
+                    w.probes["log_add_in_reserved_range"] += 1
+                else:
+                    if c1 < min(c0 + v, nr + 1):
+                        self.fail("log_not_exact_in_reserved_range", f"add({key.hex()},{v}): counter {c0} -> {c1} below num_reserved+1={nr+1}")
+                    w.probes["log_add_in_probabilistic_range"] += 1
+        for u in w.universe:
+            if u == key:
+                continue
+            if new[u] < old[u]:
+                self.fail("other_estimate_decreased", f"add({key.hex()},{v}): est[{u.hex()}] {old[u]} -> {new[u]}")
+            if new[u] > max(old[u], ek1):
+                self.fail("other_estimate_overshoots", f"add({key.hex()},{v}): est[{u.hex()}] {old[u]} -> {new[u]} > max(old, key's new {ek1})")
+        diff = ctx["tab"] != sk.cms
+        per_row = diff.sum(axis=1)
+        if (per_row > 1).any():
+            self.fail("more_than_one_counter_per_row_changed", f"add({key.hex()},{v}): changed cells per row {per_row.tolist()}")
+        if (sk.cms < ctx["tab"]).any():
+            self.fail("counter_decreased", f"add({key.hex()},{v})")
+        if diff.any() and int(per_row.sum()) < diff.shape[0]:
+            w.probes["conservative_update_skipped_a_row"] += 1
+
+
+class C05(WMode):
+    prop = "C05"
+
+    def draw(self, rng):
+        fam = rng.choice(["linear", "linear", "log16", "log8", "log8"])
+        cfg = draw_config(rng, fam, wmax=16, nodes_max=3, events=(15, 50))
+        cfg["weights"] = hist_weights(work=70)
+        cfg["entry_weights"] = {"add": 8, "update_list": 1, "update_dict": 1, "add_ngram": 1, "update_ngram": 0.5}
+        if fam == "linear":
+            cfg["mult"] = rng.choice([{"one": 2, "small": 3, "mid": 2, "zero": 1, "ceil": 1, "half": 2, "huge": 1},
+                                      {"one": 1, "small": 1, "ceil": 3, "half": 3, "huge": 2}])
+        else:
+            cfg["mult"] = {"one": 3, "small": 4, "mid": 2, "zero": 1}
+        return cfg
+
+    def checker(self, cfg):
+        return C05Checker()
+
+    def nontrivial(self, w):
+        return w.counters["add"] > 0
+
+
+# ==================================================================================
+# C09 — merging count-min sketches adds the counts cell by cell
+# ==================================================================================
+class C09Checker(Checker):
+    prop = "C09"
+
+    def after(self, w, ev, ctx, info):
+        if ev["op"] != "deliver" or info is None:
+            return
+        a_pre, b_pre, a_post = info["a_pre"], info["b_pre"], info["a_post"]
+        if not info["other_unchanged"]:
+            self.fail("merged_in_sketch_changed", f"deliver {ev['id']}")
+        for j, name in ((0, "n_added"), (1, "n_records")):
+            want = (int(a_pre[1][j]) + int(b_pre[1][j])) & ((1 << 64) - 1)
+            if int(a_post[1][j]) != want:
+                self.fail(f"{name}_not_sum", f"{int(a_pre[1][j])} + {int(b_pre[1][j])} -> {int(a_post[1][j])}")
+        A, B, R = a_pre[0], b_pre[0], a_post[0]
+        n = w.nodes[info["node"]]
+        sk = n.primary
+        if w.fam == "linear":
+            want = np.minimum(A.astype(np.uint64) + B.astype(np.uint64), U32MAX).astype(np.uint32)
+            if not np.array_equal(want, R):
+                r, c = [int(x[0]) for x in np.nonzero(want != R)]
+                self.fail("linear_cell_not_saturating_sum", f"cell[{r},{c}]: {int(A[r,c])} + {int(B[r,c])} -> {int(R[r,c])}, expected {int(want[r,c])}")
+            if (want == U32MAX).any():
+                w.probes["merge_saturated_cell"] += 1
+        else:
+            ref = LogRef(float(sk.base), int(sk.num_reserved), int(sk.uint_maxval))
+            mc = float(int(sk.max_count))
+            nr = ref.nr
+            seen = ctx_pairs = set()
+            d, wd = A.shape
+            for r in range(d):
+                for c in range(wd):
+                    a, b, x = int(A[r, c]), int(B[r, c]), int(R[r, c])
+                    if (a, b) in seen:
+                        pass
+                    seen.add((a, b))
+                    v = ref.decode(a) + ref.decode(b)
+                    if x < max(a, b):
+                        self.fail("merged_counter_below_input", f"cell[{r},{c}]: merge({a},{b}) -> {x}")
+                    if v <= nr:
+                        if x != int(v):
+                            self.fail("log_reserved_range_not_exact_sum", f"cell[{r},{c}]: merge({a},{b}) -> {x}, expected {int(v)}")
+                    elif v >= mc:
+                        if x != ref.maxval:
+                            self.fail("log_not_saturated_at_max_count", f"cell[{r},{c}]: merge({a},{b}) -> {x}, decoded sum {v} >= max_count {mc}")
+                        w.probes["merge_saturated_cell"] += 1
+                    else:
+                        if not ref.nearest_ok(x, v):
+                            self.fail("log_not_nearest_counter", f"cell[{r},{c}]: merge({a},{b}) -> {x} decoding to {ref.decode(x)}; decoded sum {v}")
+            w.probes["log_pairs_checked"] += len(seen)
+            self.pairs = getattr(self, "pairs", set())
+            if len(self.pairs) < 200000:
+                self.pairs |= seen
+        # commutativity, neutral element (on clones, outside the history)
+        X = make_sketch(w.cfg)
+        Y = make_sketch(w.cfg)
+        for t, src in ((X, a_pre), (Y, b_pre)):
+            for dst, arr in zip(tables(t, w.fam), src):
+                np.copyto(dst, arr)
+        Y.merge(X)
+        if state_bytes(Y, w.fam) != b"".join(a.tobytes() for a in a_post):
+            self.fail("merge_not_commutative", f"deliver {ev['id']}: b.merge(a) differs from a.merge(b)")
+        E = make_sketch(w.cfg)
+        before = state_bytes(Y, w.fam)
+        Y.merge(E)
+        if state_bytes(Y, w.fam) != before:
+            self.fail("merging_empty_changed_state", f"deliver {ev['id']}")
+        if w.fam == "linear":
+            for dst, arr in zip(tables(X, w.fam), a_pre):
+                np.copyto(dst, arr)
+            for dst, arr in zip(tables(E, w.fam), b_pre):
+                np.copyto(dst, arr)
+            for u in w.universe:
+                ea, eb, em = int(X.query(u)), int(E.query(u)), int(sk.query(u)) if info.get("via0", True) else 0
+                # estimate through the merged table (a_post)
+                if em < min(ea + eb, U32MAX):
+                    self.fail("merged_estimate_below_sum", f"key {u.hex()}: {ea} + {eb} -> {em}")
+        w.probes["merges_checked"] += 1
+
+
+def near_vals(rng, fam, cfg):
+    mx = {"linear": U32MAX, "log16": 65535, "log8": 255}[fam]
+    nr = cfg.get("num_reserved", 0)
+    pool = [0, 0, 1, 2, mx, mx - 1, mx - 2, mx // 2, mx // 2 + 1, nr, max(nr - 1, 0), min(nr + 1, mx), min(nr + 2, mx), nr // 2]
+    r = rng.random()
+    if r < 0.6:
+        return rng.choice(pool)
+    return rng.randrange(0, mx + 1)
+
+
+class C09(WMode):
+    prop = "C09"
+
+    def draw(self, rng):
+        fam = rng.choice(["linear", "log16", "log8", "log8"])
+        cfg = draw_config(rng, fam, wmax=16, nodes_max=4, events=(12, 40))
+        cfg["capture_merge"] = True
+        r = rng.random()
+        cfg["sub"] = "history"
+        if fam == "log8" and r < 0.02:
+            cfg.update(width=256, depth=256, n_nodes=2, n_events=0, sub="all_pairs")
+        elif fam == "log16" and r < 0.02:
+            cfg.update(width=256, depth=256, n_nodes=2, n_events=0, sub="all_vs_empty")
+        elif r < 0.6:
+            cfg["sub"] = "injected"
+        w = hist_weights(work=45, disk=False)
+        if cfg["sub"] == "injected":
+            w["inject"] = 25
+        cfg["weights"] = w
+        if fam == "linear":
+            cfg["mult"] = {"one": 2, "small": 3, "mid": 2, "zero": 1, "ceil": 1, "half": 2, "huge": 1}
+        else:
+            cfg["mult"] = {"one": 3, "small": 4, "mid": 2, "zero": 1}
+        return cfg
+
+    def checker(self, cfg):
+        return C09Checker()
+
+    def gen(self, rng, w, gs):
+        from .gen import gen_event
+
+        kind = wchoice(rng, w.cfg["weights"])
+        if kind == "inject":
+            i = rng.randrange(len(w.nodes))
+            d, wd = w.cfg["depth"], w.cfg["width"]
+            cells = [[rng.randrange(d), rng.randrange(wd), near_vals(rng, w.fam, w.cfg)] for _ in range(rng.randrange(1, 2 * d * wd + 1))]
+            ev = {"op": "inject", "node": i, "cells": cells}
+            if rng.random() < 0.3:
+                ev["nrec"] = rng.choice([0, 1, 5, rng.getrandbits(40)])
+                ev["nadd"] = rng.choice([0, 1, rng.getrandbits(50)])
+            return ev
+        wts = dict(w.cfg["weights"])
+        wts["inject"] = 0
+        return gen_event(rng, w, gs, wts, w.cfg["mult"])
+
+    def final_events(self, rng, w, gs):
+        sub = w.cfg["sub"]
+        if sub == "all_pairs":
+            return [{"op": "inject", "node": 0, "grid": "row"}, {"op": "inject", "node": 1, "grid": "col"},
+                    {"op": "send", "src": 1, "dst": 0, "kind": "live", "id": 10 ** 6}, {"op": "deliver", "id": 10 ** 6, "via": 0}]
+        if sub == "all_vs_empty":
+            return [{"op": "inject", "node": 0, "grid": "seq"}, {"op": "inject", "node": 1, "grid": "zero"},
+                    {"op": "send", "src": 1, "dst": 0, "kind": "live", "id": 10 ** 6}, {"op": "deliver", "id": 10 ** 6, "via": 0},
+                    {"op": "inject", "node": 0, "grid": "zero"}, {"op": "inject", "node": 1, "grid": "seq"},
+                    {"op": "send", "src": 1, "dst": 0, "kind": "file", "id": 10 ** 6 + 1}, {"op": "deliver", "id": 10 ** 6 + 1, "via": 0}]
+        evs = []
+        for mid in list(w.msgs)[:4]:
+            evs.append({"op": "deliver", "id": mid, "via": 0})
+        return evs
+
+    def nontrivial(self, w):
+        return w.probes["merges_checked"] > 0
+
+
+# ==================================================================================
+# C10 — save/load reproduces the sketch exactly
+# ==================================================================================
+def cross_loaders(fam):
+    SK = boot.SK
+    allc = {"linear": SK.countmin.CountMinLinear.load, "log16": SK.countmin.CountMinLog16.load,
+            "log8": SK.countmin.CountMinLog8.load}
+    return {k: v for k, v in allc.items() if k != fam} if fam in allc else {}
+
+
+CLASSNAME = {"linear": "CountMinLinear", "log16": "CountMinLog16", "log8": "CountMinLog8", "hh": "HeavyHitters",
+             "hll": "HyperLogLog"}
+
+
+class ShadowEq(Checker):
+    """primary (and every view) byte-equal to the never-restarted in-memory shadow"""
+
+    def eq(self, w, i, why):
+        n = w.nodes[i]
+        if n.primary is None or n.shadow is None:
+            return
+        want = state_bytes(n.shadow, w.fam)
+        got = state_bytes(n.primary, w.fam)
+        if got != want:
+            self.fail("state_diverged_from_shadow", f"node={i} after {why}: {self.where(w, n.primary, n.shadow)}")
+        if public_params(n.primary, w.fam) != public_params(n.shadow, w.fam):
+            self.fail("parameters_differ_from_shadow", f"node={i} after {why}: {public_params(n.primary, w.fam)} vs {public_params(n.shadow, w.fam)}")
+        for k, v in enumerate(n.views):
+            if state_bytes(v, w.fam) != want:
+                self.fail("view_state_differs", f"node={i} view={k+1} after {why}: {self.where(w, v, n.shadow)}")
+
+    def where(self, w, a, b):
+        names = {"hh": ["lhh", "lhh_count", "key_lens", "n_added_records"], "hll": ["registers"]}.get(w.fam, ["cms", "n_added_records"])
+        out = []
+        for nm, x, y in zip(names, tables(a, w.fam), tables(b, w.fam)):
+            if x.tobytes() != y.tobytes():
+                idx = np.argwhere(x != y)
+                first = tuple(int(t) for t in idx[0]) if len(idx) else ()
+                out.append(f"{nm}{list(first)}: {x[first] if first else x} vs {y[first] if first else y}")
+        return "; ".join(out)[:300]
+
+
+class C10Checker(ShadowEq):
+    prop = "C10"
+
+    def after(self, w, ev, ctx, info):
+        if info is None:
+            return
+        i = info.get("node")
+        if i is None:
+            return
+        n = w.nodes[i]
+        op = ev["op"]
+        if op == "save":
+            self.round_trip(w, n, n.snaps[info["snap"]], i)
+        elif op == "crash_restart":
+            snap = info["snap"]
+            sk = n.primary
+            if type(sk).__name__ != snap["params"][0]:
+                self.fail("loaded_class_differs", f"{type(sk).__name__} vs {snap['params'][0]} via {info['loader']}")
+            if public_params(sk, w.fam) != snap["params"]:
+                self.fail("loaded_parameters_differ", f"{public_params(sk, w.fam)} vs {snap['params']}")
+            if state_bytes(sk, w.fam) != snap["bytes"]:
+                self.fail("loaded_state_differs", f"node={i} restart via {info['loader']} shared={ev.get('shared_load')}")
+            w.probes["restarts_checked"] += 1
+        self.eq(w, i, op)
+        if op in ("add", "update_list", "update_dict", "add_ngram", "update_ngram", "deliver") and n.gen > 0:
+            w.probes["events_after_restart_compared"] += 1
+
+    def round_trip(self, w, n, snap, i):
+        from .world import api
+
+        fam = w.fam
+        orig = n.primary
+        for route, ld in loaders(fam).items():
+            for shared in (False, True):
+                if shared and (w.n_events + i) % 3:
+                    continue
+                cp = api("load", ld, snap["path"], shared)
+                if type(cp).__name__ != CLASSNAME[fam] or type(cp) is not type(orig):
+                    self.fail("loaded_class_differs", f"{route} load returned {type(cp).__name__} for a {type(orig).__name__}")
+                if public_params(cp, fam) != public_params(orig, fam):
+                    self.fail("loaded_parameters_differ", f"{route}: {public_params(cp, fam)} vs {public_params(orig, fam)}")
+                if state_bytes(cp, fam) != state_bytes(orig, fam):
+                    self.fail("loaded_state_differs", f"{route} shared={shared}: {self.where(w, cp, orig)}")
+                if fam in CMS or fam == "hh":
+                    for u in w.universe:
+                        a, b = estimate(cp, fam, u), estimate(orig, fam, u)
+                        if a != b:
+                            self.fail("loaded_query_differs", f"key {u.hex()}: {a} vs {b}")
+                    if int(cp.n_added()) != int(orig.n_added()) or int(cp.n_records()) != int(orig.n_records()):
+                        self.fail("loaded_bookkeeping_differs", f"{cp.n_added_records} vs {orig.n_added_records}")
+                    if fam == "hh":
+                        for k, t in ((10 ** 6, None), (2, 0)):
+                            qa, qb = cp.query(k, t), orig.query(k, t)
+                            if [int(c) for _, c in qa] != [int(c) for _, c in qb]:
+                                self.fail("loaded_query_differs", f"query({k},{t}): {qa} vs {qb}")
+                else:
+                    if cp.query() != orig.query():
+                        self.fail("loaded_query_differs", f"{cp.query()} vs {orig.query()}")
+                api("merge", cp.merge, orig)  # merges with the original without error
+                del cp
+        for other, ld in cross_loaders(fam).items():
+            try:
+                ld(snap["path"])
+            except Exception:
+                w.probes["foreign_loader_rejected"] += 1
+            else:
+                self.fail("foreign_class_loader_accepted_file", f"{other} loader accepted a {fam} file")
+        w.probes["round_trips_checked"] += 1
+
+
+class C10(WMode):
+    prop = "C10"
+
+    def draw(self, rng):
+        fam = rng.choice(["linear", "log16", "log8", "hh", "hll"])
+        cfg = draw_config(rng, fam, wmax=16, nodes_max=3, events=(12, 45))
+        cfg["shadow"] = True
+        w = hist_weights(work=50)
+        w["save"], w["crash_restart"] = 14, 12
+        cfg["weights"] = w
+        if fam in ("linear", "hh"):
+            cfg["mult"] = {"one": 2, "small": 3, "mid": 2, "zero": 1, "ceil": 1, "half": 1, "huge": 1}
+        else:
+            cfg["mult"] = {"one": 3, "small": 4, "mid": 2, "zero": 1}
+        if fam in LOG and rng.random() < 0.3:
+            cfg["max_count"], cfg["num_reserved"] = rng.choice([(1 << 63, 15), ((1 << 63) + 12345, 3), (1 << 62, 100), (12345678901234, 7)])
+        if fam == "hh" and rng.random() < 0.3:
+            cfg["phi"] = rng.choice([0.1, 0.3, 1e-6, 0.999999, 1 / 3])
+        return cfg
+
+    def checker(self, cfg):
+        return C10Checker()
+
+    def nontrivial(self, w):
+        return w.probes["round_trips_checked"] + w.probes["restarts_checked"] > 0
+
+
+# ==================================================================================
+# C12 — batch, dict, multiplicity and ngram entry points equal loops of single adds
+# ==================================================================================
+class C12Checker(ShadowEq):
+    prop = "C12"
+
+    def after(self, w, ev, ctx, info):
+        if info is None or "exp" not in info:
+            return
+        i = info["node"]
+        self.eq(w, i, ev["op"])
+        n = w.nodes[i]
+        if w.fam in CMS:
+            for k, _ in info["exp"][:6]:
+                a, b = n.primary[k], n.primary.query(k)
+                if a != b:
+                    self.fail("getitem_ne_query", f"key {k.hex()}: sketch[key]={a} query={b}")
+        op = ev["op"]
+        w.probes["entry_" + op] += 1
+        if op in ("add_ngram", "update_ngram"):
+            ks = [ev["key"]] if op == "add_ngram" else ev["keys"]
+            for hk in ks:
+                L = len(hk) // 2
+                w.probes["ngram_len_eq_n" if L == ev["n"] else ("ngram_len_lt_n" if L < ev["n"] else "ngram_len_gt_n")] += 1
+
+
+class C12(WMode):
+    prop = "C12"
+
+    def draw(self, rng):
+        fam = rng.choice(["linear", "log16", "log8", "hh", "hll"])
+        cfg = draw_config(rng, fam, wmax=8, nodes_max=2, events=(10, 40))
+        cfg["shadow"] = True
+        cfg["shadow_single_adds"] = True
+        cfg["weights"] = {"work": 100}
+        cfg["entry_weights"] = {"add": 3, "update_list": 3, "update_dict": 3, "add_ngram": 3, "update_ngram": 2}
+        cfg["mult"] = {"one": 2, "small": 4, "mid": 1.5, "zero": 1}
+        # longer keys so that n < len, n == len and n > len all occur
+        pool = [unhex(h) for h in cfg["pool"]]
+        from .gen import rand_key
+
+        for _ in range(3):
+            pool.append(rand_key(rng, rng.randrange(2, 41)))
+        cfg["pool"] = [hexk(k) for k in pool]
+        return cfg
+
+    def checker(self, cfg):
+        return C12Checker()
+
+
+# ==================================================================================
+# C15 — merging incompatible sketches is refused and changes nothing
+# ==================================================================================
+class C15Checker(Checker):
+    prop = "C15"
+
+    def after(self, w, ev, ctx, info):
+        if info is None:
+            return
+        if ev["op"] == "skew_merge":
+            expect_ok = bool(ev.get("agree"))
+            for d, out in zip(ev["dirs"], info["outcomes"]):
+                if expect_ok:
+                    if out != "merged":
+                        self.fail("agreeing_sketches_refused", f"delta={ev['delta']} dir={d}: {out}")
+                elif out != "TypeError":
+                    inv = "incompatible_merge_accepted" if out == "merged" else "wrong_exception_type"
+                    self.fail(inv, f"delta={ev['delta']} dir={d}: outcome {out}")
+            if not expect_ok:
+                if not info["a_unchanged"] or not info["peer_unchanged"]:
+                    self.fail("operand_changed_by_refused_merge", f"delta={ev['delta']} a_unchanged={info['a_unchanged']} peer_unchanged={info['peer_unchanged']}")
+                w.probes["refusals_checked:" + "+".join(sorted(ev["delta"]))] += 1
+            else:
+                w.probes["agreeing_merges_checked"] += 1
+
+
+def skew_delta(rng, cfg):
+    fam = cfg["family"]
+    if fam in CMS:
+        opts = ["width", "depth", "type", "type"]
+        if fam in LOG:
+            opts += ["max_count", "num_reserved", "max_count", "num_reserved"]
+        what = rng.choice(opts)
+        if what == "width":
+            return {"width": cfg["width"] + rng.choice([1, 2, 7]) if rng.random() < 0.7 or cfg["width"] == 1 else cfg["width"] - 1}
+        if what == "depth":
+            return {"depth": cfg["depth"] + 1 if rng.random() < 0.6 or cfg["depth"] == 1 else cfg["depth"] - 1}
+        if what == "type":
+            other = rng.choice([f for f in CMS if f != fam])
+            d = {"family": other}
+            if other in LOG:
+                # keep max_count / num_reserved equal where the peer type accepts them
+                if fam in LOG and cfg["num_reserved"] < (255 if other == "log8" else 65535) - 40 and (other == "log8" or cfg["max_count"] >= 70000):
+                    d["max_count"], d["num_reserved"] = cfg["max_count"], cfg["num_reserved"]
+                else:
+                    d["max_count"], d["num_reserved"] = (U32MAX, 15) if other == "log8" else (U32MAX, 1023)
+            return d
+        if what == "max_count":
+            return {"max_count": cfg["max_count"] + rng.choice([1, 1000, cfg["max_count"]])}
+        return {"num_reserved": cfg["num_reserved"] + rng.choice([1, 2]) if cfg["num_reserved"] < 200 else cfg["num_reserved"] - 1}
+    if fam == "hll":
+        if rng.random() < 0.5:
+            return {"p": cfg["p"] + 1 if cfg["p"] < 16 else cfg["p"] - 1}
+        return {"seed": (cfg["seed"] + rng.choice([1, 1 << 32, 1 << 63])) % (1 << 64)}
+    what = rng.choice(["width", "depth", "mkl"])
+    if what == "mkl":
+        return {"mkl": cfg["mkl"] + 1 if cfg["mkl"] < 255 and (rng.random() < 0.6 or cfg["mkl"] == 1) else cfg["mkl"] - 1}
+    return {what: cfg[what] + 1 if rng.random() < 0.6 or cfg[what] == 1 else cfg[what] - 1}
+
+
+class C15(WMode):
+    prop = "C15"
+
+    def draw(self, rng):
+        fam = rng.choice(["linear", "log16", "log8", "hh", "hll"])
+        cfg = draw_config(rng, fam, wmax=16, nodes_max=3, events=(8, 30))
+        w = hist_weights(work=40)
+        w["skew"] = 35
+        cfg["weights"] = w
+        cfg["mult"] = {"one": 3, "small": 4, "zero": 1}
+        if fam in LOG:
+            # peers of the other log type must be constructible with the same parameters
+            cfg["max_count"], cfg["num_reserved"] = rng.choice([(U32MAX, 15), (U32MAX, 100), (70000, 15), (10 ** 6, 200), (1 << 40, 15)])
+        return cfg
+
+    def checker(self, cfg):
+        return C15Checker()
+
+    def gen(self, rng, w, gs):
+        from .gen import gen_event
+
+        kind = wchoice(rng, w.cfg["weights"])
+        if kind != "skew":
+            wts = dict(w.cfg["weights"])
+            wts["skew"] = 0
+            return gen_event(rng, w, gs, wts, w.cfg["mult"])
+        i = rng.randrange(len(w.nodes))
+        ev = {"op": "skew_merge", "node": i, "dirs": rng.choice([["ab"], ["ba"], ["ab", "ba"], ["ba", "ab"]]),
+              "keys": [rng.choice(w.cfg["pool"]) for _ in range(rng.randrange(1, 4))], "fill": rng.choice(w.cfg["pool"]),
+              "ds": rng.getrandbits(31)}
+        if rng.random() < 0.2:
+            # agreeing peer built differently: other phi (hh), spelled-out defaults, must merge
+            ev["agree"] = True
+            ev["delta"] = {"phi": rng.choice([0.5, 0.25, 0.01])} if w.fam == "hh" else {"factory": True}
+            ev["dirs"] = ["ab"]
+        else:
+            ev["delta"] = skew_delta(rng, w.cfg)
+        return ev
+
+    def nontrivial(self, w):
+        return w.counters["skew_merge"] > 0
+
+
+# ==================================================================================
+# C16 — shared-memory and attached sketches behave like in-memory ones
+# ==================================================================================
+class C16Checker(ShadowEq):
+    prop = "C16"
+
+    def after(self, w, ev, ctx, info):
+        if info is None:
+            return
+        i = info.get("node")
+        if i is None:
+            return
+        n = w.nodes[i]
+        op = ev["op"]
+        if op == "drop_view":
+            if info["shm_name"] and not os.path.exists("/dev/shm/" + info["shm_name"]):
+                self.fail("segment_gone_after_view_drop", f"node={i} segment {info['shm_name']} no longer listed")
+            w.probes["view_drops_checked"] += 1
+        if op == "drop_owner":
+            if info["listed_after_owner"] or info["listed_after"]:
+                self.fail("segment_left_after_owner_drop", f"node={i} segment {info['shm_name']} still listed (owner_first={info['owner_first']})")
+            if info["survivors_ok"] is False:
+                self.fail("view_contents_lost_after_owner_drop", f"node={i}")
+            w.probes["owner_drops_checked" + ("_owner_first" if info["owner_first"] and info["survivors_ok"] is not None else "")] += 1
+            return
+        self.eq(w, i, op)
+        if n.primary is None:
+            return
+        # same answers through every party
+        parties = [n.primary] + list(n.views)
+        if w.fam == "hll":
+            q = n.shadow.query()
+            for pi, pty in enumerate(parties):
+                if pty.query() != q:
+                    self.fail("query_differs_from_in_memory", f"node={i} party={pi}: {pty.query()} vs {q}")
+        else:
+            us = list(w.universe)
+            for u in us[: 6]:
+                q = estimate(n.shadow, w.fam, u)
+                for pi, pty in enumerate(parties):
+                    if estimate(pty, w.fam, u) != q:
+                        self.fail("query_differs_from_in_memory", f"node={i} party={pi} key {u.hex()}: {estimate(pty, w.fam, u)} vs {q}")
+            for pi, pty in enumerate(parties):
+                if int(pty.n_added()) != int(n.shadow.n_added()) or int(pty.n_records()) != int(n.shadow.n_records()):
+                    self.fail("bookkeeping_differs_from_in_memory", f"node={i} party={pi}")
+        if n.views:
+            w.probes["events_with_views_compared"] += 1
+            if "via" in ev and ev["via"]:
+                w.probes["events_routed_through_a_view"] += 1
+        shm = getattr(n.primary, "shm", None)
+        if shm is not None:
+            sz = tables(n.primary, w.fam)[0].nbytes
+            if w.fam == "hh":
+                if (int(n.primary.lhh.nbytes) % 4) != 0:
+                    w.probes["hh_key_area_not_multiple_of_4"] += 1
+                sz = n.primary.lhh.nbytes + n.primary.lhh_count.nbytes + n.primary.key_lens.nbytes
+            if w.fam != "hll" and sz % 8 != 0:
+                w.probes["unaligned_bookkeeping_offset"] += 1
+
+    def final(self, w):
+        if w.unraisable:
+            w.probes["unraisable_in_del"] += len(w.unraisable)
+
+
+class C16(WMode):
+    prop = "C16"
+
+    def draw(self, rng):
+        fam = rng.choice(["linear", "log16", "log8", "hh", "hll"])
+        cfg = draw_config(rng, fam, wmax=9, nodes_max=3, events=(12, 45))
+        cfg["shared"] = True
+        cfg["shadow"] = True
+        cfg["weights"] = hist_weights(work=50, views=True)
+        cfg["weights"].update({"attach": 10, "drop_view": 6, "drop_owner": 2, "crash_restart": 2})
+        cfg["mult"] = {"one": 3, "small": 4, "mid": 1, "zero": 1} if fam in LOG or fam == "hll" else {"one": 2, "small": 3, "mid": 1, "zero": 1, "ceil": 1, "huge": 1}
+        if fam == "hll":
+            cfg["p"] = rng.choice([7, 7, 8, 9, 10])
+        return cfg
+
+    def checker(self, cfg):
+        return C16Checker()
+
+    def nontrivial(self, w):
+        return w.probes["events_with_views_compared"] > 0
+
+
+# ==================================================================================
+# C18 — counters saturate, never wrap
+# ==================================================================================
+class C18Checker(Checker):
+    prop = "C18"
+
+    def before(self, w, ev):
+        op = ev["op"]
+        if op not in ("add", "update_list", "update_dict", "add_ngram", "update_ngram", "deliver"):
+            return None
+        if op == "deliver":
+            m = w.msgs.get(ev["id"])
+            if m is None:
+                return None
+            i = m.dst
+        else:
+            i = ev.get("node")
+            if i is None or not (0 <= i < len(w.nodes)):
+                return None
+        n = w.nodes[i]
+        if n.primary is None:
+            return None
+        if op != "deliver":
+            for k, _ in w.expansion(ev):
+                w.note_key(k)
+        return {"node": i, "est": {u: estimate(n.primary, w.fam, u) for u in w.universe}}
+
+    def after(self, w, ev, ctx, info):
+        if info is None:
+            return
+        if ev["op"] == "ctor":
+            if info["raised"] is None:
+                mc = float(info["max_count"])
+                if not (abs(info["top"] - mc) <= 1e-6 * mc):
+                    self.fail("accepted_config_ceiling_ne_max_count", f"{ev['fam']} max_count={info['max_count']} num_reserved={info['nr']}: maximum counter decodes to {info['top']!r} (base={info['base']!r}), no ValueError")
+                w.probes["ctor_accepted"] += 1
+            else:
+                w.probes["ctor_raised_ValueError"] += 1
+            return
+        if ctx is None:
+            return
+        i = ctx["node"]
+        n = w.nodes[i]
+        sk = n.primary
+        if w.fam in CMS:
+            top = U32MAX if w.fam == "linear" else None
+            for u, old in ctx["est"].items():
+                new = estimate(sk, w.fam, u)
+                if new < old:
+                    self.fail("estimate_decreased", f"node={i} key {u.hex()}: {old} -> {new} after {ev['op']}")
+                if w.fam == "linear":
+                    if old == U32MAX:
+                        w.probes["op_on_saturated_key"] += 1
+                else:
+                    if old >= float(int(sk.max_count)) * (1 - 1e-6):
+                        w.probes["op_on_saturated_key"] += 1
+        else:
+            if n.unknown:
+                return
+            for u in w.universe:
+                f = n.truth.get(u, 0)
+                if f <= 0:
+                    continue
+                alone = True
+                for row in w.sharers(u):
+                    for o in row:
+                        if o != u and n.truth.get(o, 0) > 0:
+                            alone = False
+                            break
+                    if not alone:
+                        break
+                if not alone:
+                    continue
+                c = int(sk[u])
+                if c != min(f, U32MAX):
+                    self.fail("lone_heavy_hitter_count_wrong", f"node={i} hh[{u.hex()}]={c}, alone in its cells with true count {f}, after {ev['op']}")
+                if c < ctx["est"].get(u, 0):
+                    self.fail("estimate_decreased", f"node={i} hh[{u.hex()}] {ctx['est'].get(u)} -> {c}")
+                if f >= U32MAX:
+                    w.probes["op_on_saturated_key"] += 1
+                w.probes["lone_hh_key_checked"] += 1
+
+
+CTOR_MC = [256, 300, 1000, 5000, 70000, 10 ** 6, U32MAX, 1 << 40, 1 << 63]
+
+
+class C18(WMode):
+    prop = "C18"
+
+    def draw(self, rng):
+        fam = rng.choice(["linear", "log16", "log8", "log8", "hh"])
+        cfg = draw_config(rng, fam, wmax=8, nodes_max=3, events=(12, 45))
+        w = hist_weights(work=55)
+        if fam in LOG:
+            w["ctor"] = 8
+        else:
+            w["ctor"] = 3
+        cfg["weights"] = w
+        if fam in LOG:
+            cfg["max_count"], cfg["num_reserved"] = rng.choice([(300, 0), (300, 15), (500, 3), (1000, 15), (2000, 100)] if fam == "log8"
+                                                                else [(70000, 1023), (70000, 60000), (100000, 1023), (70000, 5)])
+            cfg["mult"] = {"one": 1, "small": 2, "mid": 4, "zero": 0.5}
+            if fam == "log16":
+                cfg["mult"] = {"small": 1, "mid": 3, "big": 3}
+        else:
+            cfg["mult"] = {"one": 1, "small": 1, "ceil": 3, "half": 3, "huge": 2, "zero": 0.5}
+        return cfg
+
+    def checker(self, cfg):
+        return C18Checker()
+
+    def gen(self, rng, w, gs):
+        from .gen import gen_event
+
+        kind = wchoice(rng, w.cfg["weights"])
+        if kind != "ctor":
+            wts = dict(w.cfg["weights"])
+            wts["ctor"] = 0
+            return gen_event(rng, w, gs, wts, w.cfg["mult"])
+        fam = rng.choice(["log8", "log8", "log16"])
+        mx = 255 if fam == "log8" else 65535
+        mc = rng.choice(CTOR_MC + [rng.randrange(256, 1 << 20), rng.randrange(1 << 20, 1 << 63)])
+        r = rng.random()
+        if r < 0.35:
+            nr = rng.randrange(0, min(mx, 300))
+        elif r < 0.7:
+            nr = mx - rng.randrange(1, 60)
+        else:
+            nr = rng.randrange(0, mx)
+        if mc <= nr + 1:
+            mc = nr + 2 + rng.randrange(0, 1000)
+        return {"op": "ctor", "fam": fam, "max_count": mc, "nr": nr, "factory": rng.random() < 0.3}
+
+    def nontrivial(self, w):
+        return w.probes["op_on_saturated_key"] + w.probes["ctor_accepted"] + w.probes["ctor_raised_ValueError"] > 0
+
+
+# ==================================================================================
+# C06 — log counters: exact in the reserved range, unbiased beyond, fresh draws
+# ==================================================================================
+WORK_OPS = ("add", "update_list", "update_dict", "add_ngram", "update_ngram")
+_decode_checked = {}
+
+
+class C06Checker(Checker):
+    prop = "C06"
+
+    def __init__(self, cfg):
+        self.ref = None
+        self.cfg = cfg
+
+    def get_ref(self, sk):
+        if self.ref is None:
+            self.ref = LogRef(float(sk.base), int(sk.num_reserved), int(sk.uint_maxval))
+        return self.ref
+
+    # -- decode table: decode(c+1) - decode(c) == base^(c - num_reserved) -------------
+    def check_decode(self, w, sk):
+        key = (w.fam, int(sk.max_count), int(sk.num_reserved))
+        ref = self.get_ref(sk)
+        cs = _decode_checked.get(key)
+        if cs is None:
+            cs = list(range(0, ref.maxval)) if ref.maxval <= 255 else sorted(set(
+                list(range(0, 64)) + list(range(max(ref.nr - 32, 0), min(ref.nr + 64, ref.maxval))) +
+                list(range(ref.maxval - 64, ref.maxval)) + list(range(0, ref.maxval, 257))))
+            _decode_checked[key] = cs
+        probe = make_sketch(w.cfg)
+        k = b"k"
+        prev = None
+        for c in cs + [cs[-1] + 1]:
+            probe.cms[:] = c
+            val = float(probe.query(k))
+            if c <= ref.nr and val != float(c):
+                self.fail("reserved_range_not_exact", f"counter {c} decodes to {val!r}")
+            if prev is not None and prev[0] == c - 1 and prev[0] >= ref.nr:
+                step = val - prev[1]
+                want = ref.base ** float(prev[0] - ref.nr)
+                if abs(step - want) > 1e-9 * max(want, 1.0) + 1e-9 * abs(val):
+                    self.fail("decode_step_ne_inverse_probability", f"decode({c})-decode({c-1})={step!r}, base^(c-nr)={want!r}")
+            prev = (c, val)
+        w.probes["decode_steps_checked"] += len(cs)
+
+    # -- (c) draw accounting: full refinement of every workload event --------------
+    def before(self, w, ev):
+        if ev["op"] not in WORK_OPS:
+            return None
+        i = ev.get("node")
+        if i is None or not (0 <= i < len(w.nodes)) or w.nodes[i].primary is None:
+            return None
+        sk = w.party(w.nodes[i], ev.get("via", 0))
+        if w.n_events == 1:
+            self.check_decode(w, sk)
+        return {"tab": sk.cms.copy(), "nadd": int(sk.n_added())}
+
+    def after(self, w, ev, ctx, info):
+        if info is None:
+            return
+        op = ev["op"]
+        if op == "law":
+            self.law(w, ev, info)
+            return
+        i = info.get("node")
+        if i is None:
+            return
+        n = w.nodes[i]
+        if op in WORK_OPS and ctx is not None:
+            self.accounting(w, ev, ctx, info)
+        # (b) lower bound on every history
+        if n.primary is not None and not n.unknown:
+            nr1 = int(n.primary.num_reserved) + 1
+            for u in w.universe:
+                t = n.truth.get(u, 0)
+                q = float(n.primary.query(u))
+                if q < min(t, nr1):
+                    self.fail("estimate_below_reserved_lower_bound", f"node={i} key {u.hex()}: query={q} true={t} num_reserved+1={nr1} after {op}")
+                if t > nr1:
+                    w.probes["key_beyond_reserved_range"] += 1
+
+    def accounting(self, w, ev, ctx, info):
+        sk = info["sk"]
+        ref = self.get_ref(sk)
+        ds, ptr = ev.get("ds", 1), int(ev.get("ptr", 0))
+        from .world import batch_for
+
+        batch = batch_for(ds)
+        rs = None
+        tab = ctx["tab"]
+        ambiguous = False
+        refills = 0
+        total_v = 0
+        used_total = 0
+        for k, v in info["exp"]:
+            total_v += v
+            cells = w.owner_cells(w.ident(k))
+            if cells is False:
+                return
+            c0 = min(int(tab[r, c]) for r, c in enumerate(cells))
+            c, rem = c0, v
+            while True:
+                c, ptr, used, amb, rem = ref.walk(c, rem, batch, ptr)
+                used_total += used
+                ambiguous = ambiguous or amb
+                if rem == 0:
+                    break
+                if rs is None:
+                    rs = np.random.RandomState((ds + 1) & 0xFFFFFFFF)
+                batch = rs.random_sample(2048)
+                ptr = 0
+                refills += 1
+            if c != c0:
+                for r, col in enumerate(cells):
+                    if int(tab[r, col]) < c:
+                        tab[r, col] = c
+        if ambiguous:
+            w.probes["draw_inside_ambiguity_band_skipped"] += 1
+            return
+        if not np.array_equal(tab, sk.cms):
+            idx = np.argwhere(tab != sk.cms)[0]
+            self.fail("counter_walk_differs_from_decision_law", f"{ev['op']}: cell{idx.tolist()} model={int(tab[tuple(idx)])} actual={int(sk.cms[tuple(idx)])} (ptr0={ev.get('ptr',0)}, refills={refills})")
+        if int(sk.rand_ptr) != ptr:
+            self.fail("draw_pointer_mismatch", f"{ev['op']}: rand_ptr={int(sk.rand_ptr)} model={ptr} (consumed {used_total} draws, refills={refills})")
+        if int(sk.n_added()) - ctx["nadd"] != total_v:
+            self.fail("n_added_not_grown_by_v", f"{ev['op']}: n_added grew by {int(sk.n_added()) - ctx['nadd']}, expected {total_v}")
+        if refills:
+            w.probes["batch_refilled"] += refills
+            if not np.array_equal(sk.rand_nums, batch):
+                self.fail("batch_not_replenished_from_generator", f"{ev['op']}: after {refills} refill(s) the batch is not the generator's next 2048 draws")
+            first = batch_for(ds)
+            if np.array_equal(sk.rand_nums, first):
+                self.fail("batch_recycled", f"{ev['op']}: batch unchanged after refill")
+            if not ((sk.rand_nums >= 0.0).all() and (sk.rand_nums < 1.0).all()):
+                self.fail("draw_outside_unit_interval", ev["op"])
+        else:
+            if not np.array_equal(sk.rand_nums, batch_for(ds)):
+                self.fail("batch_changed_without_exhaustion", ev["op"])
+        if used_total:
+            w.probes["probabilistic_decisions_mirrored"] += used_total
+
+    # -- (a) decision law by placed draws --------------------------------------------
+    def law(self, w, ev, info):
+        c, c2, u, p = info["c"], info["c2"], info["u"], info["p"]
+        nr, mx = info["nr"], info["maxval"]
+        if info["dn"] != 1:
+            self.fail("n_added_not_grown_by_v", f"law probe: n_added grew by {info['dn']}")
+        if c >= mx:
+            if c2 != c or info["ptr2"] != info["ptr"]:
+                self.fail("maximum_counter_moved_or_drew", f"c={c} -> {c2}, ptr {info['ptr']} -> {info['ptr2']}")
+            w.probes["law_at_maximum"] += 1
+            return
+        if c < nr:
+            if c2 != c + 1:
+                self.fail("reserved_range_not_exact", f"counter {c} < num_reserved={nr} -> {c2} on a unit add")
+            if info["ptr2"] != info["ptr"]:
+                self.fail("draw_consumed_in_reserved_range", f"c={c} ptr {info['ptr']} -> {info['ptr2']}")
+            w.probes["law_in_reserved_range"] += 1
+            return
+        if info["ptr2"] != info["ptr"] + 1:
+            self.fail("draw_pointer_mismatch", f"law probe at c={c}: ptr {info['ptr']} -> {info['ptr2']}")
+        if abs(u - p) <= 1e-9 * p:
+            return
+        want = c + 1 if u < p else c
+        if c2 != want:
+            self.fail("decision_law_violated", f"counter {c} (num_reserved={nr}) with draw u={u!r} vs p=base^-(c-nr)={p!r} ({ev['side']}): -> {c2}, expected {want}")
+        w.probes["law_" + ev["side"]] += 1
+
+
+class C06(WMode):
+    prop = "C06"
+
+    def draw(self, rng):
+        fam = rng.choice(["log8", "log8", "log16"])
+        cfg = draw_config(rng, fam, wmax=16, nodes_max=3, events=(12, 45))
+        from .gen import LOG8_GRID, LOG16_GRID
+
+        cfg["max_count"], cfg["num_reserved"] = rng.choice(LOG8_GRID if fam == "log8" else LOG16_GRID)
+        cfg["sub"] = "law" if rng.random() < 0.4 else "history"
+        w = hist_weights(work=60)
+        if cfg["sub"] == "law":
+            w["law"] = 60
+        cfg["weights"] = w
+        small = cfg["max_count"] <= 10 ** 5
+        cfg["mult"] = {"one": 3, "small": 4, "mid": 2, "zero": 1, "big": 1 if small and fam == "log8" else 0}
+        return cfg
+
+    def checker(self, cfg):
+        return C06Checker(cfg)
+
+    def gen(self, rng, w, gs):
+        from .gen import gen_event
+
+        kind = wchoice(rng, w.cfg["weights"])
+        if kind != "law":
+            wts = dict(w.cfg["weights"])
+            wts["law"] = 0
+            return gen_event(rng, w, gs, wts, w.cfg["mult"])
+        mx = 255 if w.fam == "log8" else 65535
+        nr = w.cfg["num_reserved"]
+        r = rng.random()
+        if r < 0.25:
+            c = rng.choice([nr, nr + 1, max(nr - 1, 0), mx, mx - 1, 0, min(nr + 2, mx)])
+        elif r < 0.5:
+            c = rng.randrange(nr, mx + 1)
+        else:
+            c = rng.randrange(0, mx + 1)
+        return {"op": "law", "node": rng.randrange(len(w.nodes)), "key": rng.choice(w.cfg["pool"]), "c": c,
+                "side": rng.choice(["below", "above", "below", "above", "far_below", "far_above", "zero", "max"]),
+                "ptr": rng.choice([0, 1, 2047, rng.randrange(2048)]), "ds": rng.getrandbits(31)}
+
+    def nontrivial(self, w):
+        return w.probes["probabilistic_decisions_mirrored"] > 0 or w.counters["law"] > 0
+
+
+MODES = {"C01": C01(), "C02": C02(), "C03": HHMode("C03"), "C04": HHMode("C04"), "C05": C05(), "C06": C06(), "C09": C09(),
+         "C10": C10(), "C12": C12(), "C13": C13(), "C15": C15(), "C16": C16(), "C18": C18()}
